@@ -708,12 +708,19 @@ impl Scenario for Sched {
             }
             label.push_str(" -w");
         }
-        if filter == Filter::None && rng.chance(1, 6) {
+        // (where several FEE IDs share a link number a link filter selects several validators: more often there)
+        let shared: Vec<u8> = {
+            let mut v: Vec<u8> = st.links.iter().map(|l| l.link_id).filter(|id| st.links.iter().filter(|l| l.link_id == *id).count() > 1).collect();
+            v.dedup();
+            v
+        };
+        let sharing = cfg.share_link_ids && !shared.is_empty() && label != "sample files";
+        if filter == Filter::None && rng.chance(1, if sharing { 2 } else { 6 }) {
             // an output destination next to the check / view (with the filter it requires): accepted with
             // a warning and ignored - in particular no second consumer of the reader's batches
             let w = walk(&input);
             if let Some(p0) = w.pkts.first() {
-                let f = Filter::Link(w.pkts[rng.usize_below(w.pkts.len())].rdh.link_id);
+                let f = if sharing { Filter::Link(*rng.pick(&shared)) } else { Filter::Link(w.pkts[rng.usize_below(w.pkts.len())].rdh.link_id) };
                 let _ = p0;
                 // (the destination is a file or, 1 in 2, the word `stdout`)
                 let to_stdout = rng.chance(1, 2);
